@@ -182,6 +182,9 @@ pub broadcast proof fn axiom_yielded_vec<T>(v: Vec<T>)
     ensures #[trigger] yielded::<T, Vec<T>>(v) == v@
 {}
 
+pub assume_specification<T, const N: usize>[ <std::collections::VecDeque<T> as From<[T; N]>>::from ](arr: [T; N]) -> (r: std::collections::VecDeque<T>)
+    ensures r@ == arr@;
+
 #[verifier::external_body]
 pub fn __vx_collect<T, I: IntoIterator<Item = T>>(i: I) -> (r: Vec<T>)
     ensures r@ == yielded::<T, I>(i)
